@@ -234,7 +234,14 @@ class Check:
     def case_layers(self, desc):
         """context of a case used to recognise a recorded finding (layer kinds of the recipe / op kinds of the program)"""
         try:
-            return [L["op"] for L in desc["recipe"]["layers"]]
+            out = []
+            for L in desc["recipe"]["layers"]:
+                out.append(L["op"])
+                if L.get("act") not in (None, "NONE"):
+                    out.append("FUSED_" + L["act"])
+                if L.get("stride") and max(L["stride"]) >= 2 and L["op"] != "TRANSPOSE_CONV":
+                    out.append("STRIDE_GE2")
+            return out
         except Exception:
             return []
 
@@ -248,6 +255,10 @@ class Check:
             if k.get("requires_any") and not (set(k["requires_any"]) & layers):
                 continue
             if k.get("kind_any") and sig.get("kind") not in k["kind_any"]:
+                continue
+            if k.get("requires_any2") and not (set(k["requires_any2"]) & layers):
+                continue
+            if k.get("min_count") and sum(1 for x in self.case_layers(desc) if x in k["min_count"]["of"]) < k["min_count"]["n"]:
                 continue
             if k.get("max_layers") is not None and len(self.case_layers(desc)) > k["max_layers"]:
                 continue
